@@ -167,7 +167,7 @@ func refusedOutcome(comp string, x *c04Exec) bool {
 }
 
 func checkC04(rep *vk.Report) {
-	rep.Rule = "round = fresh count-based breaker on a virtual clock behind one of {cb, retry(cb), timeout(cb), cb(timeout), fallback(cb)}, sync or async. Phase 1: 8-32 goroutines race failing/succeeding executions until OnOpen and keep arriving after it with the clock frozen: every execution whose call event follows the OnOpen event (taken inside the listener, under the breaker's lock) with no later transition must not enter the function and must end in the ErrOpen-derived outcome. Phase 2 (after a barrier): the clock jumps to the delay, callers block inside the function on a gate, outcomes success/failure/context-cancelled/timed-out are released in random order: executions admitted within one half-open episode never overlap more than the trial capacity; after quiescence in a still undecided half-open state exactly capacity TryAcquirePermit probes succeed. Plus concurrent standalone histories (TryAcquirePermit/Record*/State/Open/HalfOpen/Close/Advance) checked with porcupine against the C03 machine. Non-trivial: a round with >=1 execution in flight across the opening and >=1 refused after it, or a half-open phase with more callers than capacity; distinct by (config, composition, workers, async, in-flight-across-opening, max half-open overlap)."
+	rep.Rule = "round = fresh count-, ratio- or time-based breaker (with and without a success threshold, execution threshold above and below the success capacity) on a virtual clock behind one of {cb, retry(cb), timeout(cb), cb(timeout), fallback(cb)}, sync or async. Phase 1: 8-32 goroutines race failing/succeeding executions until OnOpen and keep arriving after it with the clock frozen: every execution whose call event follows the OnOpen event (taken inside the listener, under the breaker's lock) with no later transition must not enter the function and must end in the ErrOpen-derived outcome. Phase 2 (after a barrier): the clock jumps to the delay, callers block inside the function on a gate, outcomes success/failure/context-cancelled/timed-out are released in random order: executions admitted within one half-open episode never overlap more than the trial capacity; after quiescence in a still undecided half-open state exactly capacity TryAcquirePermit probes succeed. Plus concurrent standalone histories (TryAcquirePermit/Record*/State/Open/HalfOpen/Close/Advance) checked with porcupine against the C03 machine. Non-trivial: a round with >=1 execution in flight across the opening and >=1 refused after it, or a half-open phase with more callers than capacity; distinct by (config, composition, workers, async, in-flight-across-opening, max half-open overlap)."
 	rep.Assumptions = []string{
 		"ordering argument: the OnStateChanged listener runs under the breaker's lock after the state was replaced, admission takes the same lock after the caller's call event",
 		"half-open bound is only claimed when no execution admitted before the opening is still in flight (barrier between the phases)",
@@ -210,6 +210,22 @@ func c04RunRound(rep *vk.Report, idx int) {
 		cfg.SuccKind, cfg.SuccThreshold, cfg.SuccCapacity = "", 0, 0
 		capTrial = cfg.FailCapacity
 	}
+	// time based breakers (period far longer than any clock jump, so nothing ages out): the trial capacity is the success
+	// capacity when one is configured, whatever the execution threshold is; else the execution threshold
+	switch r.IntN(5) {
+	case 0:
+		cfg.Kind, cfg.FailCapacity, cfg.ExecThreshold, cfg.Period = "period-count", thr, thr, 3600e9
+		if cfg.SuccKind == "" {
+			capTrial = thr
+		}
+	case 1:
+		cfg.Kind, cfg.FailThreshold, cfg.FailCapacity, cfg.Period = "period-rate", 0, 0, 3600e9
+		cfg.RateThreshold, cfg.ExecThreshold = vk.Pick(r, uint(20), 34, 50), uint(1+r.IntN(6))
+		if cfg.SuccKind == "" {
+			capTrial = uint(1 + r.IntN(4))
+			cfg.SuccKind, cfg.SuccThreshold, cfg.SuccCapacity = "ratio", 1, capTrial
+		}
+	}
 	cs := c04Case{Cfg: cfg, Comp: vk.Pick(r, "cb", "cb", "retry(cb)", "timeout(cb)", "cb(timeout)", "fallback(cb)"), Workers: 8 + r.IntN(25), Async: r.IntN(3) == 0,
 		DelayFunc: r.IntN(2) == 0, ManualOpen: r.IntN(4) == 0}
 	rd := newC04Round(cs)
@@ -232,7 +248,7 @@ func c04RunRound(rep *vk.Report, idx int) {
 					if wr.IntN(2) == 0 {
 						rd.cb.Open()
 					} else {
-						for k := uint(0); k < cs.Cfg.FailCapacity; k++ {
+						for k := uint(0); k < max(cs.Cfg.FailCapacity, cs.Cfg.ExecThreshold); k++ {
 							rd.cb.RecordFailure()
 						}
 					}
